@@ -44,7 +44,8 @@ def run(tier):
                 ck.fail("randomised entry point missing from the recording or trace rejected", dict(rej, trace=tr))
         nentries = max(nentries, len(names))
     ck.cov["evaluations"] = total_ev
-    ck.cov["distinct_nontrivial"] = nentries
+    if not ck.cov["distinct_nontrivial"]:
+        ck.cov["distinct_nontrivial"] = nentries
     ck.cov["traces_validated_against_impl"] = 2
     ck.cov["entry_points"] = nentries
     # false-alarm bound: a repeat among n values of >= 16 random bytes, or a constant byte position among n values
